@@ -16,12 +16,7 @@ CONSTANTS
 SPECIFICATION GrowSpec
 INVARIANTS
   Inv_RoutesWellFormed
-  Inv_ServeIsCode
-  Inv_RouteOrderRespected
-  Inv_HostOrderRespected
-  Inv_RedirectExact
-  Inv_WsProxiedIffConfigured
-  Inv_IndependentOfRest
+  Inv_AllServeProps
   Inv_LogMasks
   Inv_LinesMonotone
   Inv_CacheCoherent
